@@ -3,7 +3,12 @@ import Bpp
 #print axioms Bpp.contribution_eq
 #print axioms Bpp.verdict_iff
 #print axioms Bpp.code_accepts_honest
-#print axioms Bpp.sCode_eq_sProd
-#print axioms Bpp.dCode_eq_dvec
-#print axioms Bpp.dSum_code
-#print axioms Bpp.ySum_code
+#print axioms Bpp.batch_one_invalid
+#print axioms Bpp.batch_at_most_one_weight
+#print axioms Bpp.response_r1_unique
+#print axioms Bpp.response_d1_unique
+#print axioms Bpp.recover_correct
+#print axioms Bpp.recover_wrong_seed
+#print axioms Bpp.promise_shift
+#print axioms Bpp.promise_unique_single
+#print axioms Bpp.promise_poly
